@@ -61,6 +61,7 @@ type FuncInfo struct {
 	invBusy  map[ssa.Value]bool
 	reachC   map[[2]int]bool
 	hdrDone  map[*ssa.BasicBlock]bool
+	congC    map[*ssa.Phi]int64
 	invStack []*ssa.BasicBlock
 	provisional map[*ssa.BasicBlock][]*ssa.BasicBlock
 }
@@ -394,6 +395,7 @@ func (c *Ctx) lin1(v ssa.Value) lin.Form {
 		o := c.opaque(v)
 		c.callFacts(x, o)
 		c.resultFacts(x, 0, o)
+		c.resultIntLenFacts(x, 0, o)
 		return o
 	case *ssa.UnOp:
 		switch x.Op {
@@ -426,6 +428,7 @@ func (c *Ctx) lin1(v ssa.Value) lin.Form {
 		o := c.opaque(v)
 		if call, ok := x.Tuple.(*ssa.Call); ok {
 			c.resultFacts(call, x.Index, o)
+			c.resultIntLenFacts(call, x.Index, o)
 		}
 		return o
 	case *ssa.Parameter:
@@ -735,6 +738,7 @@ func (c *Ctx) assume(cond ssa.Value, truth bool) {
 					c.add(lin.LT(a, b))
 				}
 			}
+			c.congStrengthen(x)
 			return
 		}
 		// err == nil / err != nil on the error result of a call
